@@ -82,4 +82,39 @@ PROPS = {
         "trusted_base": COMMON_TB + ["handler skeletons and rotation in the reference storage are hand-modelled; tied by this stream"],
         "assumptions": [],
     },
+    "C16": {
+        "proof_module": "OidcModel.Proofs.C16",
+        "theorems": ["C16.c16_state_machine", "C16.c16_order", "C16.checkState_ok", "C16.denied_wins", "C16.approved_wins_over_expiry",
+                     "C16.timeout_is_slow_down", "C16.deviceToken_ok", "C16.deviceToken_legit", "C16.poll_tokens_sound", "C16.poll_error_ok",
+                     "C16.deviceAccessToken_ok", "C16.legacyDeviceToken_ok", "C16.withClient_ok", "C16.auth_response_ok",
+                     "C16.userCode_wellformed", "C16.userCode_length", "C16.deviceCode_wellformed", "C16.c16_uris",
+                     "C16.c16_uris_reserved_witness", "C16.issueOf_idToken"],
+        "cases": {"quick": 1500, "thorough": 40000},
+        "rule": "n = number of histories. (1) 6n direct calls of op.NewUserCode over 16 alphabets (ASCII, single letter, duplicates, containing '-', "
+                "umlauts, Greek, emoji, mixed UTF-8 widths, reserved URL characters) x amounts 1..64 (biased to 1..3 and to multiples of the dash interval +-1) "
+                "x dash intervals 0..9; the alphabet index of every character is recovered from the real output and the model must rebuild the string exactly; "
+                "(2) n/2 calls of op.NewDeviceCode (16 bytes and 0..40), bytes recovered by decoding; (3) n random histories (4..17 ops quick, ..37 thorough) of "
+                "device_authorization / approve / deny / expire (expiry moved to now-1h .. now+1h incl. -1ns, +30ms) / poll against the REAL HTTP handlers of both "
+                "routers on the reference storage, 9 clients (confidential basic x2, public native, public user-agent, client_secret_post, private_key_jwt, without the "
+                "device grant, native WITH secret, web WITHOUT secret), presentations canonical 75% / wrong secret / bare client_id / post / none / foreign secret / "
+                "unregistered id, polls by the owner or another client, unknown / empty / mangled device codes, storage faults on the state lookup (DeadlineExceeded, "
+                "wrapped DeadlineExceeded, expired request context, cancelled context, other error), histories without DeviceAuthorizationStorage, with tiny code "
+                "spaces (duplicate user codes), with a storage that leaves userinfo.Subject empty, lifetimes 90s/5min/10min, intervals 1/5/10s; issued access tokens are "
+                "decrypted with the provider's key and looked up in the storage, ID tokens decoded; non-trivial = everything but usercode lines; distinct = class x input",
+        "trivial_class": r"usercode:ok",
+        "trusted_base": COMMON_TB + [
+            "hand-written: handler skeletons of both routers (Exchange dispatch, withClient, deviceAuthorizationHandler, deviceTokenHandler), ClientIDFromRequest "
+            "without client assertions, createDeviceAuthorization (url building for an issuer without path), NewUserCode / NewDeviceCode as functions of the drawn "
+            "randomness, CreateDeviceTokenResponse reduced to (subject, client, scopes, audience, id_token sub); tied by this stream only",
+            "regenerated by factgen and consumed by the theorems: CheckDeviceAuthorizationState, assertDeviceStorage, deviceAccessToken, LegacyServer.DeviceToken, "
+            "ParseDeviceAccessTokenRequest, ParseDeviceCodeRequest, DeviceAuthorization, LegacyServer.DeviceAuthorization, LegacyServer.VerifyClient, ValidateGrantType",
+            "reference storage refstore as the meaning of a contract-fulfilling DeviceAuthorizationStorage (state only for the initiating client id)",
+            "HTTP status codes of error answers are only sampled (the model carries the OAuth error code)",
+            "crypto/rand: 16 bytes per device code, rand.Int below its bound; unguessability (entropy, non-collision) of the device code is an assumption of "
+            "c16_state_machine, only length / alphabet / pairwise distinctness are monitored (PARTIAL, DESIGN section 6)"],
+        "assumptions": ["user-code configuration in the domain of DESIGN 4.21: non-empty alphabet, amount >= 1, dash interval >= 0 (Nat in the model)",
+                        "c16_state_machine: lifetime a whole number of seconds; alphabet without % + & # (c16_uris_reserved_witness proves what fails "
+                        "otherwise); fresh device codes",
+                        "expiry compared through the [t0,t1] clock bracket of each request (guard monotone in now)"],
+    },
 }
